@@ -132,7 +132,7 @@ func checkC11(c *Ctx) {
 				}
 			}
 			p := pathOf(base)
-			if strings.HasPrefix(p, "new(") {
+			if strings.HasPrefix(p, "new(") && !unmarshalledInto(f, base) {
 				return
 			}
 			// only sub-messages: the base is obtained through a field load or a getter of another message, or a map/assert result
@@ -1144,4 +1144,38 @@ func fullCertPair(f *ssa.Function, v ssa.Value) bool {
 		}
 	}
 	return got["clientCert"] && got["serverCert"]
+}
+
+// unmarshalledInto: the value is (a field path of) a message allocated in f that f hands to an Unmarshal call - its
+// sub-messages are then whatever the external bytes said.
+func unmarshalledInto(f *ssa.Function, v ssa.Value) bool {
+	root := v
+	for i := 0; i < 8; i++ {
+		switch x := root.(type) {
+		case *ssa.UnOp:
+			root = x.X
+			continue
+		case *ssa.FieldAddr:
+			root = x.X
+			continue
+		}
+		break
+	}
+	al, ok := root.(*ssa.Alloc)
+	if !ok || al == v {
+		return false
+	}
+	hit := false
+	eachInstr(f, func(in ssa.Instruction) {
+		call, ok := in.(*ssa.Call)
+		if !ok || !strings.Contains(calleeName(&call.Call), "Unmarshal") {
+			return
+		}
+		for _, a := range call.Call.Args {
+			if stripConv(a) == ssa.Value(al) {
+				hit = true
+			}
+		}
+	})
+	return hit
 }
